@@ -15,6 +15,7 @@ mod gen_nlib;
 mod gen_tetris;
 mod hashseed;
 mod rng;
+mod selftest_ref;
 mod simio;
 
 use engine::*;
@@ -97,7 +98,6 @@ fn main() {
             }
         }
         "selftest" => selftest(&args),
-        "dbg-lef" => { debug_lef_rejects(); 0 }
         "c20-child" => checks::c20::child_main(&args),
         _ => {
             eprintln!("unknown command");
@@ -142,6 +142,7 @@ fn selftest(args: &[String]) -> i32 {
                 0
             }
         }
+        "refcodec" => selftest_ref::run(),
         "hashseed" => {
             let a = hashseed::with_hash_seed(1, hashseed::order_probe).unwrap();
             let a2 = hashseed::with_hash_seed(1, hashseed::order_probe).unwrap();
@@ -163,20 +164,3 @@ fn selftest(args: &[String]) -> i32 {
     }
 }
 
-#[allow(dead_code)]
-pub fn debug_lef_rejects() {
-    use crate::rng::Tape;
-    let mut shown = 0;
-    for i in 0..5000u64 {
-        let mut t = Tape::record(i);
-        let (text, _) = gen_lef::gen_lef_text(&mut t, false);
-        std::fs::write("/tmp/dbg.lef", &text).unwrap();
-        if let Err(e) = lef21::LefLibrary::open("/tmp/dbg.lef") {
-            println!("---- {:?}\n{}", e, text);
-            shown += 1;
-            if shown > 2 {
-                break;
-            }
-        }
-    }
-}
